@@ -55,7 +55,7 @@ OWN_NICK = ['relayA', 'relayB', 'relayC', 'relayD', 'relayE', 'relayF']
 BASE_FLAGS = ['Running', 'Valid']
 
 
-def mk_entry(i, epoch, nick=None, flags=(), n_a=0, bw='auto', p=None, unmeasured=False, same_addr=True):
+def mk_entry(i, epoch, nick=None, flags=(), n_a=0, bw='auto', p=None, unmeasured=False, same_addr=True, noflags=False):
     """a ghost RelayEntry for pool relay i in document number `epoch` (ip / ports / digest /
     bandwidth change with the epoch so that stale values are visible)"""
     digest = _b64_nopad(hashlib.sha1(('desc %d %d' % (i, epoch)).encode()).digest())
@@ -68,7 +68,7 @@ def mk_entry(i, epoch, nick=None, flags=(), n_a=0, bw='auto', p=None, unmeasured
             'published': '2026-10-%02d %02d:%02d:%02d' % (1 + epoch, i, epoch, 7),
             'ip': '10.%d.%d.%d' % (epoch, i, 1 + epoch), 'orport': 9001 + i + 10 * epoch,
             'dirport': 0 if (i + epoch) % 2 else 9030 + i + 10 * epoch,
-            'a': a, 'flags': sorted(set(BASE_FLAGS) | set(flags)), 'bw': bw,
+            'a': a, 'flags': [] if noflags else sorted(set(BASE_FLAGS) | set(flags)), 'bw': bw,     # noflags: the status line is "s " alone
             'unmeasured': bool(unmeasured), 'p': p}
 
 
@@ -670,6 +670,10 @@ def _systematic(tier):
     yield {'docs': [[mk_entry(0, 0, flags=('Authority',)), mk_entry(1, 0)],
                     [mk_entry(0, 1, nick='renamed', flags=('Authority',)), mk_entry(1, 1, nick='relayA')]]}  # authority renamed
     yield {'docs': [[mk_entry(0, 0, nick='dizum', flags=('Authority',)), mk_entry(1, 0, nick='dizum', flags=('Authority',))]]}
+    # a relay that currently has no flags at all (dir-spec: "s" SP Flags NL with an empty list): first, in the middle, last
+    yield {'docs': [[mk_entry(0, 0, noflags=True), mk_entry(1, 0), mk_entry(2, 0, flags=('Guard',))]]}
+    yield {'docs': [[mk_entry(0, 0), mk_entry(1, 0, noflags=True, bw=None), mk_entry(2, 0, flags=('Guard',))],
+                    [mk_entry(0, 1), mk_entry(1, 1, flags=('Exit',)), mk_entry(2, 1, noflags=True)]]}
     yield {'docs': [[mk_entry(0, 0, nick='OK'), mk_entry(1, 0, nick='ns')], [mk_entry(0, 1, nick='r'), mk_entry(1, 1, nick='s')]]}
     yield {'docs': [[mk_entry(0, 0, unmeasured=True)], [mk_entry(0, 1, unmeasured=True, n_a=1)]]}
     for seg in ('lines', {'seed': 7}):
@@ -703,7 +707,7 @@ def _random_history(rnd):
             w = rnd.random() < 0.7 or (safe and p is not None)
             d.append(mk_entry(i, epoch if rnd.random() < 0.8 else 0, nick=nick, flags=flags, n_a=n_a,
                               bw=rnd.randint(1, 99999) if w else None, p=p, unmeasured=rnd.random() < 0.2,
-                              same_addr=rnd.random() < 0.6))
+                              same_addr=rnd.random() < 0.6, noflags=rnd.random() < 0.08))
         docs.append(d)
     h = {'docs': docs}
     r = rnd.random()
